@@ -839,13 +839,19 @@ def evaluate__matches(self: XPathFunction, context: ta.ContextType = None) -> bo
     pattern = self.get_argument(context, 1, required=True, cls=str)
     flags = 0
     if len(self) > 2:
+        literal = False
         for c in self.get_argument(context, 2, required=True, cls=str):
             if c in 'smix':
                 flags |= getattr(re, c.upper())
-            elif c == 'q' and self.parser.version > '2':
-                pattern = re.escape(pattern)
+            elif c == 'q' and self.parser.version >= '3.0':
+                literal = True
             else:
                 raise self.error('FORX0001', "Invalid regular expression flag %r" % c)
+
+        if literal:
+            # the pattern is a literal string and the 'x' flag has no effect
+            pattern = re.escape(pattern)
+            flags &= ~re.X
 
     try:
         python_pattern = translate_pattern(pattern, flags, self.parser.xsd_version)
@@ -874,14 +880,20 @@ def evaluate__replace(self: XPathFunction, context: ta.ContextType = None) -> st
     q_flag = False
     if len(self) > 3:
         c: str
+        literal = False
         for c in self.get_argument(context, 3, required=True, cls=str):
             if c in 'smix':
                 flags |= getattr(re, c.upper())
-            elif c == 'q' and self.parser.version > '2':
-                pattern = re.escape(pattern)
+            elif c == 'q' and self.parser.version >= '3.0':
+                literal = True
                 q_flag = True
             else:
                 raise self.error('FORX0001', "Invalid regular expression flag %r" % c)
+
+        if literal:
+            # the pattern is a literal string and the 'x' flag has no effect
+            pattern = re.escape(pattern)
+            flags &= ~re.X
 
     try:
         python_pattern = translate_pattern(pattern, flags, self.parser.xsd_version)
